@@ -7,12 +7,15 @@ Oracle: row counts per group (hidden marker attribute), row integrity (per-parti
 column order (requested / default); the complete default header; the rows of the table as a multiset against the
 values the real per-group generators returned *in that very call* (a spy on `make_single_release` / `date_range` /
 `get_location` / `get_attrs`), which judges positions, sampled attributes and GeoJSON properties as well and does
-not need the markers; the written file (when `fname` is given) against the returned table."""
-import importlib, io, os, shutil, tempfile
+not need the markers; the written file (when `fname` is given) against the returned table; for polygon, multi-polygon and
+GeoJSON groups the position of a row against the group's own location (exact rational point-in-polygon of `geom`, no /repo
+code), and for GeoJSON groups the feature properties of a row against the properties of the one feature whose polygon
+contains the row's position (the spy cannot see this: position and properties come out of the same `get_location` call)."""
+import importlib, io, json, os, shutil, tempfile
 from collections import Counter
 import numpy as np
 from .common import Driver, I, unF, RngRecorder, same_bits
-from . import relgen
+from . import relgen, geom
 from .relgen import name_tok, cell_tok, frame_toks
 
 RULE = ("1..6 groups; num in {0,1,2,3,5,12,40} (int or numpy integer); location forms point / polygon / multi-polygon / metric offset / "
@@ -25,7 +28,13 @@ RULE = ("1..6 groups; num in {0,1,2,3,5,12,40} (int or numpy integer); location 
         "groups repeat an earlier group's date span (cross-group ties); with and without `columns` (either all of date, position, "
         "depth, markers plus extras, or an arbitrary non-empty subset of the available columns incl. GeoJSON properties, possibly "
         "without date / markers); flat, list (a real list: no global keys) and grouped containers; with and without seed (seed 0 "
-        "in 5 % of the seeded cases); a fifth of the cases write the file (`fname`). Non-trivial: total num >= 1.")
+        "in 5 % of the seeded cases); a fifth of the cases write the file (`fname`). 60 % of the GeoJSON groups and 12 % of the other "
+        "groups get a *feature-layout* GeoJSON location instead: 1..6 features of 1..3 disjoint polygons each on a 3-degree grid, "
+        "polygon kinds rectangle (aspect 1 .. 0.01) / triangle / random simple polygon, polygon sizes 0.014 .. 1.3 degrees mixed "
+        "within one location (or all unit squares: equal triangle areas), geometry Polygon / MultiPolygon in any letter case, every "
+        "feature with a distinct `farm_id` (int, x.5 float, rarely a text) in shuffled order and/or region / farmid / name / w "
+        "properties, features without `properties` / with `properties: null` / with `{}`, the layer alone or first in a list of "
+        "layers; a GeoJSON location is handed over as a stream or (40 %) as the name of a UTF-8 file. Non-trivial: total num >= 1.")
 ASSUMPTIONS = ["rows with equal date strings are compared as multisets (pandas' quicksort is unstable)"]
 SITE = "ladim_plugins/release/makrel.py::make_release"
 SPECIAL = ["num", "date", "location", "attrs"]
@@ -43,11 +52,16 @@ def attr_names(groups):
 
 def build_config(rng):
     ng = rng.randrange(1, 7)
-    groups = []; forms = []
+    groups = []; forms = []; deliver = {}; layout = {}
     for g in range(ng):
         form, conf = relgen.gen_group(rng, g, rich=True)
         if g > 0 and rng.random() < 0.25:
             conf["date"] = groups[rng.randrange(g)]["date"]         # same span as an earlier group: cross-group ties
+        if rng.random() < (0.6 if form == "geojson" else 0.12):
+            # feature layout: which feature a particle lands in (sizes, kinds, identifying properties)
+            form = "geojson"; conf["location"] = gen_feature_location(rng); layout[g] = True
+        if form == "geojson":
+            deliver[g] = "file" if rng.random() < 0.4 else "stream"
         groups.append(conf); forms.append(form)
     container = rng.choice(["flat", "list", "grouped"]) if ng == 1 else rng.choice(["list", "grouped", "grouped"])
     glob = {}
@@ -64,11 +78,155 @@ def build_config(rng):
                 cols = rng.sample(pool, rng.randrange(1, len(pool) + 1))
             rng.shuffle(cols)
             glob["columns"] = cols
-    return groups, forms, container, glob
+    return groups, forms, container, glob, deliver, layout
 
 
-def wrap(groups, container, glob):
-    gs = [relgen.materialise(c) for c in groups]
+GRID_STEP = 3.0          # feature-layout polygons sit in separate 3 x 3 degree cells; every polygon stays within 1.3 of its cell centre
+
+
+def _layout_polygon(rng, cx, cy, r, kind):
+    """one simple polygon [(lon, lat)] inside the disc-ish cell of radius r around (cx, cy)"""
+    if kind == "rect":
+        hx = r * rng.uniform(0.3, 1.0)
+        hy = r * rng.choice([1.0, 1.0, 0.5, 0.1, 0.01]) * rng.uniform(0.3, 1.0)
+        if rng.random() < 0.5:
+            hx, hy = hy, hx
+        p = [(cx - hx, cy - hy), (cx + hx, cy - hy), (cx + hx, cy + hy), (cx - hx, cy + hy)]
+        k = rng.randrange(4); p = p[k:] + p[:k]
+        return p[::-1] if rng.random() < 0.5 else p
+    if kind == "tri":
+        while True:
+            p = geom.star_polygon(rng, cx, cy, r, 3)
+            if geom.is_simple(p):
+                return p[::-1] if rng.random() < 0.5 else p
+    return geom.random_polygon(rng, cx, cy, r)
+
+
+def gen_feature_location(rng):
+    """A GeoJSON location that explores *which feature a particle lands in*: several features with polygons of (very)
+    different size and kind, pairwise disjoint (own grid cell each, gap >= 0.4 degrees), and feature properties that tell
+    the features apart.  Returns the JSON text."""
+    nf = rng.randrange(1, 7)
+    sizes = rng.choice(["mixed", "mixed", "mixed", "equal_unit_squares", "same_scale"])
+    cells = rng.sample(range(24), 18)                          # 8 x 3 grid of cells, visited in random order
+    ids = rng.sample(range(1, 100), nf)                        # distinct identifiers, not ordered like the features
+    pmode = rng.choice(["ident", "ident", "ident+hetero", "hetero", "sparse"])
+    idkind = rng.choice(["int", "int", "half", "mixed_text"])
+    scale0 = rng.choice([0.02, 0.1, 0.5, 1.3])
+    feats = []; k = 0
+    for f in range(nf):
+        ps = []
+        for q in range(rng.choice([1, 1, 2, 3])):
+            cell = cells[k]; k += 1
+            cx = -15.0 + GRID_STEP * (cell % 8); cy = 57.0 + GRID_STEP * (cell // 8)
+            if sizes == "equal_unit_squares":
+                p = [(cx, cy), (cx + 1.0, cy), (cx + 1.0, cy + 1.0), (cx, cy + 1.0)]
+            else:
+                r = (scale0 if sizes == "same_scale" else rng.choice([0.02, 0.1, 0.5, 1.3])) * rng.uniform(0.7, 1.0)
+                p = _layout_polygon(rng, cx, cy, r, rng.choice(["rect", "rect", "tri", "random", "random"]))
+            ps.append(p)
+        ring = lambda p: [[x, y] for x, y in p] + [[p[0][0], p[0][1]]]
+        props = {}
+        if pmode in ("ident", "ident+hetero"):
+            props["farm_id"] = ids[f] if idkind == "int" else ids[f] + 0.5 if idkind == "half" else (
+                "id-%d" % ids[f] if f % 2 else ids[f])
+        if pmode != "ident":
+            for name in ("region", "farmid"):
+                if rng.random() < 0.7:
+                    props[name] = rng.choice([f + 1, 2.5 * (f + 1)])
+            if rng.random() < 0.4:
+                props["name"] = rng.choice(["farm %d", "anlegg æ%d"]) % ids[f]
+            if rng.random() < 0.3:
+                props["w"] = 100.0 + f
+            keys = list(props); rng.shuffle(keys); props = {kk: props[kk] for kk in keys}
+        t = rng.choice(["MultiPolygon", "MultiPolygon", "multipolygon", "MULTIPOLYGON"])
+        geometry = dict(type=t, coordinates=[[ring(p)] for p in ps])
+        if len(ps) == 1 and rng.random() < 0.5:
+            geometry = dict(type=rng.choice(["Polygon", "polygon", "POLYGON"]), coordinates=[ring(ps[0])])
+        feat = dict(type="Feature", properties=props, geometry=geometry)
+        if pmode == "sparse" and rng.random() < 0.35:
+            how = rng.choice(["omit", "null", "empty"])
+            if how == "omit":
+                del feat["properties"]
+            else:
+                feat["properties"] = None if how == "null" else {}
+        feats.append(feat)
+    layer = dict(type="FeatureCollection", features=feats)
+    if rng.random() < 0.15:
+        # the reader takes the first layer of a list of layers
+        return json.dumps([layer] + ([dict(type="FeatureCollection", features=[])] if rng.random() < 0.5 else []), ensure_ascii=False)
+    return json.dumps(layer, ensure_ascii=False)
+
+
+def feature_polys(locjson):
+    """the GeoJSON text read independently of /repo: [(feature index, [(lon, lat)] outer ring without the closing point,
+    properties of the feature)] for every polygon of the first layer"""
+    data = json.loads(locjson)
+    layer = data if isinstance(data, dict) else data[0]
+    out = []
+    for fi, f in enumerate(layer["features"]):
+        g = f["geometry"]
+        outer = [pl[0] for pl in g["coordinates"]] if g["type"].upper() == "MULTIPOLYGON" else [g["coordinates"][0]]
+        for ring in outer:
+            out.append((fi, [(float(x), float(y)) for x, y in ring[:-1]], f.get("properties") or {}))
+    return out
+
+
+def own_polys(form, conf):
+    """the polygons [(lon, lat)] of a polygon / multi-polygon / GeoJSON group's location (None for the other forms)"""
+    loc = conf["location"]
+    if form == "geojson":
+        return [p for _, p, _ in feature_polys(loc)]
+    if form == "poly":
+        return [[(float(x), float(y)) for x, y in zip(loc[0], loc[1])]]
+    if form == "multi":
+        return [[(float(x), float(y)) for x, y in zip(lo, la)] for lo, la in zip(loc[0], loc[1])]
+    return None
+
+
+def config_defined(conf):
+    return (set(conf.keys()) | set(conf.get("attrs", {}).keys())) - set(SPECIAL)
+
+
+def check_feature_join(ctx, g, conf, flat, particles, where, cs):
+    """`particles`: [(particle / row number, lon, lat, {property name: value in that row})] of the GeoJSON group g.
+    The property says the values of one particle stay together: the feature properties in a row are those of the
+    feature the row's position was sampled in, 0 where that feature has no such property.  The polygons of one location are
+    pairwise disjoint by construction (separate grid cells), so the owner is unique; a position in no polygon is C03's
+    subject and not judged here.  Tolerance: `geom.inside_tol` decides exactly (rationals) and accepts in addition points
+    within 1e-11 * (coordinate magnitude + 1) < 1e-9 degrees of the boundary - the sampled point is an affine combination
+    of the triangle corners evaluated in binary64 (error a few ulp of 75, i.e. ~1e-14) - while the polygons of different
+    features are >= 0.4 degrees apart, so the tolerance can never change the owner.
+    Names the group's configuration defines itself are the particle's attribute (C04), not the feature's: skipped."""
+    skip = config_defined(conf)
+    names = sorted(set(k for _, _, pr in flat for k in pr) - skip)
+    for i, x, y, vals in particles:
+        owners = sorted(set(fi for fi, p, _ in flat if geom.inside_tol(p, x, y)))
+        if len(owners) != 1:
+            ctx.branch("geojson.position_in_%d_features" % len(owners))
+            continue
+        fi = owners[0]
+        props = next(pr for f2, _, pr in flat if f2 == fi)
+        bad = [(nm, vals[nm], props.get(nm)) for nm in names if nm in vals and ckey(vals[nm]) != ckey(props.get(nm))]
+        ctx.oracle(not bad, "C01.row_integrity.geojson_feature", SITE,
+                   "%s: particle/row %d of GeoJSON group %d lies at (lon %r, lat %r) in feature %d, whose properties are %r, but "
+                   "carries %s" % (where, i, g, x, y, fi, props, ", ".join("%s=%r (feature has %r)" % b for b in bad)),
+                   dict(cs, group=g, particle=i))
+        ctx.branch("geojson.feature_join_checked")
+
+
+def materialise(conf, how=None, path=None):
+    """a GeoJSON location (JSON text in the generated configuration) as a fresh stream, or as the name of a UTF-8 file"""
+    if how == "file" and isinstance(conf["location"], str):
+        with open(path, "w", encoding="utf-8") as fh:
+            fh.write(conf["location"])
+        c = dict(conf); c["location"] = path
+        return c
+    return relgen.materialise(conf)
+
+
+def wrap(groups, container, glob, deliver=None, stem=None):
+    gs = [materialise(c, (deliver or {}).get(g), "%s_g%d.geojson" % (stem, g)) for g, c in enumerate(groups)]
     if container == "flat":
         c = dict(gs[0]); c.update(glob); return c
     if container == "list" and not glob:
@@ -304,11 +462,11 @@ def _run(ctx, tmp):
         drv.available = False
     pend = []
     for c in range(ctx.n(150, 3000)):
-        groups, forms, container, glob = build_config(ctx.rng)
+        groups, forms, container, glob, deliver, layout = build_config(ctx.rng)
         seed = ctx.sub_seed()
         fname = os.path.join(tmp, "out%d.rls" % c) if ctx.rng.random() < 0.2 else None
         total = int(sum(g["num"] for g in groups))
-        cs = dict(container=container, glob=glob, forms=forms, fname=bool(fname),
+        cs = dict(container=container, glob=glob, forms=forms, fname=bool(fname), deliver=deliver,
                   groups=[{k: (v if not callable(v) else "<callable>") for k, v in g.items()} for g in groups])
         ctx.case(key=repr(cs), nontrivial=total > 0, sample=dict(container=container, forms=forms, nums=[g["num"] for g in groups], glob=glob) if c < 3 else None)
         for f in forms: ctx.branch("form." + f)
@@ -319,6 +477,24 @@ def _run(ctx, tmp):
             if any(k in relgen.geojson_props(g) for g in groups for k in glob["columns"]): ctx.branch("columns.geojson_property")
         if glob.get("seed", None) == 0: ctx.branch("seed.zero")
         if fname: ctx.branch("fname")
+        gj = {}                                   # GeoJSON group -> its polygons / features, read from the text
+        for g, conf in enumerate(groups):
+            if forms[g] != "geojson":
+                continue
+            flat = gj[g] = feature_polys(conf["location"])
+            ctx.branch("geojson.deliver." + deliver[g])
+            ctx.branch("geojson.layout" if layout.get(g) else "geojson.relgen")
+            ctx.size("geojson.features", len(set(fi for fi, _, _ in flat)))
+            ctx.size("geojson.polygons", len(flat))
+            if not isinstance(json.loads(conf["location"]), dict): ctx.branch("geojson.list_of_layers")
+            if len(set(repr(sorted(pr.items())) for _, _, pr in flat)) > 1: ctx.branch("geojson.features_told_apart_by_properties")
+            ar = [abs(geom.shoelace(p)) for _, p, _ in flat]
+            if len(ar) > 1 and max(ar) > 4 * min(ar): ctx.branch("geojson.polygon_areas_differ_4x")
+            if len(ar) > 1 and max(ar) > 100 * min(ar): ctx.branch("geojson.polygon_areas_differ_100x")
+            if len(ar) > 1 and any(ar[k] > ar[k + 1] for k in range(len(ar) - 1)): ctx.branch("geojson.polygon_areas_not_ascending")
+            if len(ar) > 1 and max(ar) == min(ar): ctx.branch("geojson.polygon_areas_equal")
+            if any(not pr for _, _, pr in flat): ctx.branch("geojson.feature_without_properties")
+            if int(conf["num"]) >= 12 and len(flat) > 1: ctx.branch("geojson.many_particles_several_polygons")
         for g in groups:
             ctx.branch("markers.explicit" if "grp" in g.get("attrs", {}) else "markers.implicit")
             if "attrs" not in g: ctx.branch("group.no_attrs_mapping")
@@ -335,7 +511,8 @@ def _run(ctx, tmp):
         try:
             with Spy(mk) as spy:
                 with RngRecorder(seed) as rec:
-                    res = mk.make_release(wrap(groups, container, glob), fname) if fname else mk.make_release(wrap(groups, container, glob))
+                    wconf = wrap(groups, container, glob, deliver, os.path.join(tmp, "loc%d" % c))
+                    res = mk.make_release(wconf, fname) if fname else mk.make_release(wconf)
         except Exception as e:
             ctx.oracle(False, "C01.make_release.raises", SITE, "valid configuration raised %r" % (e,), cs)
             continue
@@ -354,7 +531,24 @@ def _run(ctx, tmp):
             ctx.oracle(set(hdr) == wantset and len(hdr) == len(wantset), "C01.columns_default_set", SITE,
                        "header %r: missing %r, unexpected %r" % (hdr, sorted(wantset - set(hdr)), sorted(set(hdr) - wantset)), cs)
         if nrows == total and all(len(v) == nrows for v in res.values()):
-            seen = check_rows(ctx, res, hdr, nrows, groups, spy.by_group(groups), cs)
+            gen = spy.by_group(groups)
+            seen = check_rows(ctx, res, hdr, nrows, groups, gen, cs)
+            # position <-> feature properties inside one particle's values.  (a) on what the location reader handed over
+            # in this very call (check_rows above ties these values to the rows, whatever the columns), ...
+            for g, flat in gj.items():
+                e = gen.get(g); n = int(groups[g]["num"])
+                if e is None or n == 0 or any(len(e[k]) != n for k in e):
+                    continue
+                check_feature_join(ctx, g, groups[g], flat,
+                                   [(i, e["longitude"][i], e["latitude"][i], {k: e[k][i] for k in e}) for i in range(n)],
+                                   "values generated for the group", cs)
+            # ... (b) on the rows of the table itself, when they show position and group
+            if "grp" in res and "longitude" in res and "latitude" in res:
+                for g, flat in gj.items():
+                    rows = [r for r in range(nrows) if res["grp"][r] == g + 1]
+                    check_feature_join(ctx, g, groups[g], flat,
+                                       [(r, res["longitude"][r], res["latitude"][r], {k: res[k][r] for k in hdr}) for r in rows],
+                                       "table", cs)
             if seen is None:
                 ctx.branch("spy.incomplete")
                 if not getattr(ctx, "_c01_spy_note", False):
@@ -377,6 +571,7 @@ def _run(ctx, tmp):
                     pass
                 alln = set(k for k in list(conf.keys()) + list(conf.get("attrs", {}).keys())) - set(SPECIAL)
                 gjp = relgen.geojson_props(conf)
+                polys_g = own_polys(forms[g], conf)
                 for i in range(conf["num"]):
                     rows = np.flatnonzero(tag == g * 1000000 + i)
                     ok = len(rows) == 1 and grp[rows[0]] == g + 1
@@ -392,6 +587,14 @@ def _run(ctx, tmp):
                         ctx.oracle(("longitude" not in res or res["longitude"][r] == conf["location"][0]) and
                                    ("latitude" not in res or res["latitude"][r] == conf["location"][1]),
                                    "C01.row_integrity", SITE, "particle of a point group has another position", dict(cs, group=g, particle=i))
+                    if polys_g is not None and "longitude" in res and "latitude" in res:
+                        # the position in the row of a particle of group g is a position of group g: inside (or, within
+                        # 1e-11 * coordinate magnitude, on) one of the polygons of its location - same exact test and
+                        # tolerance as in check_feature_join
+                        x, y = res["longitude"][r], res["latitude"][r]
+                        ctx.oracle(any(geom.inside_tol(q, x, y) for q in polys_g), "C01.row_integrity.position_of_other_location", SITE,
+                                   "particle %d of %s group %d has position (lon %r, lat %r), outside every polygon of its group's location" % (
+                                       i, forms[g], g, x, y), dict(cs, group=g, particle=i))
                     for nm in ("depth", "w", "age", "stage", "id2", "len", "q", "label", "flag", "name", "region", "farmid"):
                         if nm not in res:
                             continue
